@@ -876,6 +876,8 @@ func (e *EtcdOp) GetAllDroppedObj() map[string]map[string]uint64 {
 				log.Panic("fail to get database name", zap.String("collection_name", collectionName), zap.Error(err))
 				continue
 			}
+		} else {
+			dbName = originDBName
 		}
 		partitionName := partition.PartitionName
 		_, dropKey := util.GetPartitionInfoKeys(partitionName, collectionName, dbName)
